@@ -17,7 +17,9 @@ pub use crate::viol::PendingInfo;
 pub struct St<S: Sut> {
     pub map: S,
     pub model: Model,
-    pub walk: Walk,
+    /// walk of the arena, computed on first use (not kept for the millions of frontier states)
+    pub walk_cell: std::sync::OnceLock<Walk>,
+    pub width: u8,
     pub key: Box<[u8]>,
     pub depth: u32,
     /// the operation sequence that produced this state (shared linked list)
@@ -25,6 +27,12 @@ pub struct St<S: Sut> {
     /// 0 = sane; n > 0 = n transitions after a structural / counter violation (explored up to a horizon
     /// so that the downstream effects on the other properties become visible)
     pub taint: u8,
+}
+
+impl<S: Sut> St<S> {
+    pub fn walk(&self) -> &Walk {
+        self.walk_cell.get_or_init(|| walk(&self.map.dump(), self.width).0)
+    }
 }
 
 pub struct HistNode {
@@ -169,15 +177,15 @@ pub fn post_check<S: Sut>(map: &S, model: &Model, before: &St<S>, op: Op, uni: &
         return (out, None);
     }
     // C16 allocation discipline
-    if d.arena_len > before.walk.arena_len && !d.free.is_empty() {
-        out.push(Viol::new("C16", "arena", "grew-with-free-slots", format!("arena grew {} -> {} although {} slots are free afterwards", before.walk.arena_len, d.arena_len, d.free.len())));
+    if d.arena_len > before.walk().arena_len && !d.free.is_empty() {
+        out.push(Viol::new("C16", "arena", "grew-with-free-slots", format!("arena grew {} -> {} although {} slots are free afterwards", before.walk().arena_len, d.arena_len, d.free.len())));
     }
     // (clear() may keep its slots as long as they are all on the free list: the partition check above covers it)
     let _ = K::Clear;
     let key = state_key(&w, &d, uni, key_opts);
     // C15(c) / C13: shape preservation
     if op.shape_preserving() {
-        let sb = shape_key(&before.walk, uni);
+        let sb = shape_key(before.walk(), uni);
         let sa = shape_key(&w, uni);
         // a value may appear / disappear: compare without the value flag
         let strip = |k: &[u8]| -> Vec<u8> {
@@ -274,7 +282,8 @@ pub fn initial<S: Sut>(uni: &Universe, key_opts: KeyOpts) -> St<S> {
     St {
         map,
         model: Model::new(),
-        walk: w,
+        walk_cell: std::sync::OnceLock::from(w),
+        width: uni.width,
         key,
         depth: 0,
         hist: None,
@@ -329,7 +338,7 @@ fn expand<S: Sut>(
         let tok = (st.depth + 1) * 1000;
         pending_begin(worker, PendingInfo { run: cfg.run_label.clone(), hist: st.hist.clone(), op: Some(op), at: "transition" });
         let r = guarded(|| {
-            let vs = map.apply(&mut model, &st.walk, op, tok, &cx);
+            let vs = map.apply(&mut model, st.walk(), op, tok, &cx);
             let (mut vs2, wk) = post_check(&map, &model, st, op, uni, cfg.key_opts);
             let mut all = vs;
             all.append(&mut vs2);
@@ -392,10 +401,11 @@ fn expand<S: Sut>(
                 if visited.contains_key(&key) {
                     continue;
                 }
-                let mk = |map: S, model: Model, w: Walk, key: Box<[u8]>| St {
+                let mk = |map: S, model: Model, _w: Walk, key: Box<[u8]>| St {
                     map,
                     model,
-                    walk: w,
+                    walk_cell: std::sync::OnceLock::new(),
+                    width: uni.width,
                     key,
                     depth: st.depth + 1,
                     hist: Some(Arc::new(HistNode { op, parent: st.hist.clone() })),
@@ -433,7 +443,7 @@ pub fn explore_collect<S: Sut>(uni: &Universe, cfg: &Config, observers: &[(&'sta
     let mut shapes: std::collections::HashSet<Box<[u8]>> = Default::default();
     let init: St<S> = initial(uni, cfg.key_opts);
     visited.insert(init.key.clone(), 0);
-    shapes.insert(shape_key(&init.walk, uni));
+    shapes.insert(shape_key(init.walk(), uni));
     rep.canonical_states += 1;
     let mut frontier: Vec<(u32, St<S>)> = vec![(0, init)];
     let mut all_viols: HashMap<Sig, (u64, Found)> = HashMap::new();
@@ -500,8 +510,12 @@ pub fn explore_collect<S: Sut>(uni: &Universe, cfg: &Config, observers: &[(&'sta
             }
             let id = visited.len() as u32;
             visited.insert(c.st.key.clone(), id);
-            if shapes.insert(shape_key(&c.st.walk, uni)) && is_canonical(&c.st.walk) {
-                rep.canonical_states += 1;
+            {
+                // transient walk: not stored in the state
+                let (w, _, _) = walk(&c.st.map.dump(), uni.width);
+                if shapes.insert(shape_key(&w, uni)) && is_canonical(&w) {
+                    rep.canonical_states += 1;
+                }
             }
             if rep.samples.len() < 3 && c.st.depth >= 3 {
                 rep.samples.push(history_of(&c.st.hist).iter().map(|o| o.describe(uni)).collect::<Vec<_>>().join(" ; "));
